@@ -272,10 +272,10 @@ def judge(run, out):
     kv = dict(x.split("=") for x in oc.split()[1:5])
     ctxs = {}
     for tok in oc.split()[5:]:
-        m = re.match(r"c(\d+):([ph])(\d)(\d)(\d)(\d+)$", tok)
+        m = re.match(r"(cio|c\d+\.\d+):(\d)(\d)(\d)(\d+)$", tok)
         if not m:
             return "bad outcome token " + tok
-        ctxs[int(m.group(1))] = (m.group(2), int(m.group(3)), int(m.group(4)), int(m.group(5)), int(m.group(6)))
+        ctxs[m.group(1)] = (int(m.group(2)), int(m.group(3)), int(m.group(4)), int(m.group(5)))
     returned = kv["run_returned"] == "1"
     lp = "T%d " % L
     n_cb_wake = sum(1 for l in ev if l == lp + "note cb_wake")
@@ -312,33 +312,33 @@ def judge(run, out):
         tail = [l for l in ev[ev.index(lp + "note run-returned"):] if l.startswith(lp)]
         if len(tail) > 1:
             return "the loop thread did something after run() returned: " + tail[1]
-    for c, (kind, nreg, nrel, freed, uaf) in sorted(ctxs.items()):
-        enq = kind == "p" or any(re.match(r"T\d+ note hand-done c%d$" % c, l) for l in ev) or \
-            any(l == "T%d note cb_add_ctx c%d reg=1" % (L, c) or l == "T%d note cb_add_ctx c%d reg=0" % (L, c) for l in ev)
+    for c, (nreg, nrel, freed, uaf) in sorted(ctxs.items()):
+        enq = c == "cio" or any(re.match(r"T\d+ note hand-done %s$" % re.escape(c), l) for l in ev) or \
+            any(l.startswith("T%d note cb_add_ctx %s reg=" % (L, c)) for l in ev)
         if uaf:
-            return "context c%d used after free" % c
+            return "context %s used after free" % c
         if nreg > 1 or nrel > 1 or freed != (1 if nrel else 0):
-            return "context c%d: registered %d times, released %d times, freed=%d" % (c, nreg, nrel, freed)
+            return "context %s: registered %d times, released %d times, freed=%d" % (c, nreg, nrel, freed)
         if not enq:
             continue
         if status in ("ok", "deadlock") and nreg + nrel == 0:
-            dropped = any(l == "T%d note cb_add_ctx c%d reg=0" % (L, c) for l in ev)
-            return ("handed-over context c%d was neither registered nor released (%s)" %
+            dropped = any(l == "T%d note cb_add_ctx %s reg=0" % (L, c) for l in ev)
+            return ("handed-over context %s was neither registered nor released (%s)" %
                     (c, "registration failed in on_wake and the result was ignored" if dropped
                      else "still queued when the handle was destroyed: handed over after on_exit drained the queue"))
         if returned and nrel != 1:
-            return "run() returned but context c%d was not released" % c
+            return "run() returned but context %s was not released" % c
         if returned and nreg == 1:
-            rel = next((i for i, l in enumerate(ev) if l == "T%d note cb_release c%d" % (L, c)), None)
+            rel = next((i for i, l in enumerate(ev) if l == "T%d note cb_release %s" % (L, c)), None)
             ret = ev.index(lp + "note run-returned")
             if rel is None or rel > ret:
-                return "registered context c%d was not released by the clear phase before run() returned" % c
+                return "registered context %s was not released by the clear phase before run() returned" % c
         # nothing touches c after its free
-        fr = next((i for i, l in enumerate(ev) if l.endswith("note cb_free c%d" % c)), None)
+        fr = next((i for i, l in enumerate(ev) if l.endswith("note cb_free %s" % c)), None)
         if fr is not None:
             for l in ev[fr + 1:]:
-                if re.search(r" c%d( |$)" % c, l) and "hand-done" not in l:
-                    return "context c%d touched after its free: %s" % (c, l)
+                if re.search(r" %s( |$)" % re.escape(c), l) and "hand-done" not in l:
+                    return "context %s touched after its free: %s" % (c, l)
     return None
 
 
